@@ -65,8 +65,72 @@ func newLexer(xpath string) *lexer.Lexer {
 
 	disambiguateOperatorNames(lex)
 	rejectForeignWhitespace(lex)
+	disambiguateFunctionNames(lex)
 
 	return lex
+}
+
+func retagAsName(lex *lexer.Lexer, i int) {
+	t := lex.Tokens[i]
+	lex.Tokens[i] = token.New(token.IDToType["ncname"], t.Lext(), t.Rext(), t.GetInput())
+}
+
+func tokenID(lex *lexer.Lexer, i int) string {
+	if i < 0 || i >= len(lex.Tokens) {
+		return ""
+	}
+
+	return lex.Tokens[i].Type().ID()
+}
+
+// isNameKeyword reports whether id is an axis name or a node type, the keywords
+// that may also be (part of) a name.
+func isNameKeyword(id string) bool {
+	switch id {
+	case "", "and", "or", "div", "mod":
+		return false
+	}
+
+	return id[0] >= 'a' && id[0] <= 'z' && !tokenClasses[id]
+}
+
+func isNodeType(id string) bool {
+	switch id {
+	case "comment", "text", "processing-instruction", "node":
+		return true
+	}
+
+	return false
+}
+
+// The generated lexer returns the axis names and the node types as keywords,
+// and a function name is made of ncname tokens only, so a function called
+// self(), p:text() or child:f() could not be called.  XPath 1.0 section 3.7: a
+// name followed by '(' is a NodeType or a FunctionName.  A keyword that is the
+// whole name or the local part of a name in front of '(' - a node type only
+// as local part - and a keyword that is the prefix of such a name are
+// retagged as ordinary names.
+func disambiguateFunctionNames(lex *lexer.Lexer) {
+	for i := range lex.Tokens {
+		id := tokenID(lex, i)
+
+		if !isNameKeyword(id) {
+			continue
+		}
+
+		afterColon := tokenID(lex, i-1) == ":"
+
+		if tokenID(lex, i+1) == "(" && (afterColon || !isNodeType(id)) {
+			retagAsName(lex, i)
+			continue
+		}
+
+		local := tokenID(lex, i+2)
+
+		if tokenID(lex, i+1) == ":" && tokenID(lex, i+3) == "(" && (local == "ncname" || isNameKeyword(local)) {
+			retagAsName(lex, i)
+		}
+	}
 }
 
 // The generated lexer skips everything unicode.IsSpace accepts between tokens
